@@ -892,6 +892,8 @@ probe!(IsEq, Eq);
 probe!(IsPartialOrd, PartialOrd);
 probe!(IsOrd, Ord);
 probe!(IsHash, core::hash::Hash);
+probe!(IsDeref, core::ops::Deref);
+probe!(IsDerefMut, core::ops::DerefMut);
 pub struct IsAddVV<T>(core::marker::PhantomData<T>);
 impl<T: core::ops::Add<T, Output = T>> IsAddVV<T> { pub const V: bool = true; }
 pub struct IsNegV<T>(core::marker::PhantomData<T>);
